@@ -32,6 +32,8 @@ type cmdCase struct {
 	// replica set changes while the proxy runs: before command At the Replica-th replica becomes a replica of the To-th master
 	// (CLUSTER REPLICATE); the commands continue after the proxy has refreshed its table twice
 	Topo []topoOp `json:"topo,omitempty"`
+	// every InlineEvery-th command is sent in inline form ("name arg arg\r\n") where its words allow it (0: never)
+	InlineEvery int `json:"inline_every,omitempty"`
 }
 
 type topoOp struct {
@@ -48,6 +50,7 @@ type env struct {
 	px      *sim.Proxy
 	cl      *sim.Client
 	restore func()
+	inline  bool // send the next commands in inline form where possible
 }
 
 func newEnv(masters, replicas, strategy int) (*env, *verdict) {
@@ -85,7 +88,7 @@ func newEnvT(masters, replicas, strategy int, stable bool) (e *env, v *verdict) 
 		w.Close()
 		return nil, &verdict{"client-dial", err.Error()}
 	}
-	return &env{w, px, cl, restore}, nil
+	return &env{w, px, cl, restore, false}, nil
 }
 
 func (e *env) close() {
@@ -98,10 +101,32 @@ func (e *env) close() {
 type cmdInfo struct{ unsupportedReal, replicaRouted bool }
 
 // checkOne sends one command and checks where it went.
+// inlineable: the arguments can be written as an inline command (no empty word, no white space, not starting like RESP).
+func inlineable(args []string) bool {
+	for i, a := range args {
+		if a == "" || strings.ContainsAny(a, " \t\r\n\"'") {
+			return false
+		}
+		if i == 0 && strings.ContainsAny(a[:1], "*$+-:") {
+			return false
+		}
+	}
+	return len(args) > 0
+}
+
 func (e *env) checkOne(args []string, strategy int) (inf cmdInfo, v *verdict) {
 	w := e.w
 	w.ResetLog()
-	got, err := e.cl.Do(20*time.Second, args...)
+	var got ref.Value
+	var err error
+	if e.inline && inlineable(args) {
+		// the inline form of the same command ("name arg arg\r\n")
+		if err = e.cl.Send([]byte(strings.Join(args, " ")+"\r\n"), nil); err == nil {
+			got, err = e.cl.Recv(20 * time.Second)
+		}
+	} else {
+		got, err = e.cl.Do(20*time.Second, args...)
+	}
 	if err != nil {
 		return inf, &verdict{"reply-missing", fmt.Sprintf("%q: %v", args, err)}
 	}
@@ -264,8 +289,9 @@ func TestAllNames(t *testing.T) {
 				continue
 			}
 			for _, name := range allNames() {
-				for variant, nm := range []string{name, strings.ToUpper(name), strings.ToUpper(name[:1]) + name[1:]} {
-					args := argsFor(nm, 1+variant)
+				for variant, nm := range []string{name, strings.ToUpper(name), strings.ToUpper(name[:1]) + name[1:], name} {
+					e.inline = variant == 3 // the fourth variant is the inline form
+					args := argsFor(nm, 1+variant%3)
 					c := cmdCase{Masters: 2, Replicas: replicas, Strategy: strategy, Cmds: [][]string{args}}
 					inf, v := e.checkOne(args, strategy)
 					if v != nil {
@@ -292,6 +318,7 @@ func TestRandomCommands(t *testing.T) {
 	rapid.Check(t, func(t *rapid.T) {
 		c := cmdCase{Masters: rapid.IntRange(1, 3).Draw(t, "masters"), Replicas: rapid.IntRange(0, 2).Draw(t, "replicas"), Strategy: rapid.IntRange(0, 2).Draw(t, "strategy")}
 		n := rapid.IntRange(1, 25).Draw(t, "n")
+		c.InlineEvery = rapid.SampledFrom([]int{0, 0, 1, 2, 3}).Draw(t, "inline")
 		if c.Masters >= 2 && c.Replicas >= 1 && rapid.IntRange(0, 2).Draw(t, "topo") == 0 {
 			for k, m := 0, rapid.IntRange(1, 2).Draw(t, "ntopo"); k < m; k++ {
 				c.Topo = append(c.Topo, topoOp{At: rapid.IntRange(0, n-1).Draw(t, "at"), Replica: rapid.IntRange(0, 5).Draw(t, "trep"), To: rapid.IntRange(0, 2).Draw(t, "tto"), Swap: rapid.Bool().Draw(t, "swap")})
@@ -391,6 +418,7 @@ func runCase(c cmdCase) (bool, *verdict) {
 				nt = true
 			}
 		}
+		e.inline = c.InlineEvery > 0 && i%c.InlineEvery == c.InlineEvery-1
 		inf, v := e.checkOne(args, c.Strategy)
 		if v != nil {
 			return nt, v
